@@ -118,9 +118,38 @@ def run(rep, tier_, rng):
         if seen_cls[cls] <= 3: picked.append(it)
     solo_items = picked
     from concurrent.futures import ThreadPoolExecutor
+    import math as _math
+    slow_explained = []
+
+    def explained_by_growth(item):
+        """A call still running after the hard limit at a high precision P is re-run at P/2, P/4, ...: when the two largest of
+        those that finish show a cost growth whose extrapolation to P already exceeds half the limit, the call is slow (it ends,
+        with a value or a documented exception, after a time the lower precisions predict) and not a loop that never ends."""
+        name, prec, args = item[:3]
+        done = []
+        pp = prec // 2
+        while pp >= 50 and len(done) < 2:
+            _, verdict = solo((name, pp, args))
+            if verdict != "HUNG":
+                try:
+                    done.append((pp, max(1e-3, float(verdict.split()[-1]))))
+                except ValueError:
+                    pass
+            pp //= 2
+        if len(done) < 2:
+            return None
+        (p2, t2), (p1, t1) = done[0], done[1]
+        e = max(0.0, _math.log(t2 / t1) / _math.log(p2 / p1))
+        predicted = t2 * (prec / p2) ** e
+        return {"fn": name, "prec": prec, "args": args, "timings": done, "growth_exponent": round(e, 2),
+                "predicted_s": round(predicted, 1)} if predicted >= hard / 2 else None
+
     with ThreadPoolExecutor(8) as ex:
         for item, verdict in ex.map(solo, solo_items[:(8 if quick else 64)]):
             if verdict == "HUNG":
+                why = explained_by_growth(item) if item[1] >= 100 else None
+                if why is not None:
+                    slow_explained.append(why); continue
                 hung.append(item)
                 rep.violation("%s did not return within %d s at prec %d (no documented exception either)" % (item[0], hard, item[1]),
                               {"fn": item[0], "prec": item[1], "args": item[2], "limit_s": hard, "regime": item[3] if len(item) > 3 else "generic"})
@@ -130,6 +159,7 @@ def run(rep, tier_, rng):
         "rule": "every registered public function on moderate real/complex arguments at precisions %s plus a directed family for the digamma/hypergeometric asymptotic loops; a call exceeding %d s is re-run alone with a %d s limit" % (precs, per_call, hard),
         "samples": [{"slow_calls_retried": slow[:5]}, {"raised": raised}],
         "calls_returned": returned, "documented_exceptions": raised, "slow_calls": len(slow), "hung": len(hung),
+        "slow_explained_by_cost_growth": slow_explained,
     }
     rep.assumptions = ["primezeta with Re s < 0.6 is excluded (cost diverges towards the natural boundary Re s = 0)",
                        "termination of loops other than the three proved patterns is observed, not proved"]
